@@ -125,6 +125,10 @@ func c11Check(c *caseCtx, g *genReq, d decision, tag string) {
 		c.violate("configured-parameter-lost", msg, M{"request": g.M})
 		return
 	}
+	if msg := checkReceived(d); msg != "" {
+		c.violate("request-not-as-sent", "the heuristic works on other data than the request carries: "+msg, M{"request": g.M})
+		return
+	}
 	if !weightsCover(s) {
 		c.violate("params-incoherent", "a current criterion has no weight", M{"request": g.M})
 		return
@@ -233,7 +237,7 @@ func c11Shapes(c *caseCtx) {
 }
 
 func c11Sampled(c *caseCtx) {
-	o := genOpts{method: "majorityHeuristic", minAlt: 1, maxAlt: 6, minCrit: 1, maxCrit: 4, nBiases: c.idx % 3, negValues: c.rng.Intn(3) == 0}
+	o := genOpts{method: "majorityHeuristic", minAlt: 1, maxAlt: 6, minCrit: 1, maxCrit: 4, nBiases: c.idx % 3, negValues: c.rng.Intn(3) == 0, caseCrit: true, zeroW: true, dupChosen: true}
 	if c.rng.Intn(2) == 0 {
 		o.profile = profTies
 	}
@@ -292,6 +296,10 @@ func c12Check(c *caseCtx, g *genReq, d decision) {
 	}
 	if msg := addedRangesKept(d.Trace); msg != "" {
 		c.violate("configured-parameter-lost", msg, M{"request": g.M})
+		return
+	}
+	if msg := checkReceived(d); msg != "" {
+		c.violate("request-not-as-sent", "the heuristic works on other data than the request carries: "+msg, M{"request": g.M})
 		return
 	}
 	if !weightsCover(s) {
@@ -402,7 +410,7 @@ func c12Check(c *caseCtx, g *genReq, d decision) {
 }
 
 func c12Sampled(c *caseCtx) {
-	o := genOpts{method: "aspectEliminationHeuristic", minAlt: 1, maxAlt: 7, minCrit: 1, maxCrit: 5, nBiases: c.idx % 3, distinctW: c.rng.Intn(4) != 0, negValues: c.rng.Intn(4) == 0}
+	o := genOpts{method: "aspectEliminationHeuristic", minAlt: 1, maxAlt: 7, minCrit: 1, maxCrit: 5, nBiases: c.idx % 3, distinctW: c.rng.Intn(4) != 0, negValues: c.rng.Intn(4) == 0, caseCrit: true, zeroW: true, dupChosen: true}
 	if c.rng.Intn(2) == 0 {
 		o.profile = profTies
 	}
@@ -464,6 +472,10 @@ func c13Check(c *caseCtx, g *genReq, d decision) {
 	}
 	if msg := addedRangesKept(d.Trace); msg != "" {
 		c.violate("configured-parameter-lost", msg, M{"request": g.M})
+		return
+	}
+	if msg := checkReceived(d); msg != "" {
+		c.violate("request-not-as-sent", "the heuristic works on other data than the request carries: "+msg, M{"request": g.M})
 		return
 	}
 	levels, ok := refLevels(s, false)
@@ -553,7 +565,7 @@ func c13Check(c *caseCtx, g *genReq, d decision) {
 }
 
 func c13Sampled(c *caseCtx) {
-	o := genOpts{method: "satisfactionHeuristic", minAlt: 1, maxAlt: 7, minCrit: 1, maxCrit: 5, nBiases: c.idx % 3, negValues: c.rng.Intn(4) == 0}
+	o := genOpts{method: "satisfactionHeuristic", minAlt: 1, maxAlt: 7, minCrit: 1, maxCrit: 5, nBiases: c.idx % 3, negValues: c.rng.Intn(4) == 0, caseCrit: true, dupChosen: true}
 	if c.rng.Intn(2) == 0 {
 		o.profile = profTies
 	}
